@@ -16,4 +16,5 @@ var Registry = map[string]func(args []string){
 	"readdir":  ReaddirEngine,
 	"ramfs":    RamEngine,
 	"ramconc":  RamConc,
+	"ufs":      UfsEngine,
 }
